@@ -32,7 +32,9 @@ BaseCfg ==
    exclude |-> <<>>, required |-> <<>>, computed |-> <<>>, sensitive |-> <<>>, nameoverrides |-> <<>>,
    validators |-> <<>>, planmodifiers |-> <<>>, usfu |-> FALSE, injected |-> <<>>,
    timetype |-> TRUE, durationtype |-> TRUE, durationcustom |-> "", customtypes |-> <<>>, suffixes |-> <<>>,
-   channel |-> <<>>, fault |-> ""]
+   channel |-> <<>>, alts |-> <<>>, fault |-> ""]
+
+Alt(name, clause, channel, perm, msgs) == [name |-> name, clause |-> clause, channel |-> channel, perm |-> perm, msgs |-> msgs]
 
 \* A shape: one root type of one plugin run.  run names the (d, cfg) pair (shapes of the same run share the
 \* generated package); group / role / gchecks tie runs together for relational clauses evaluated by the
